@@ -8,11 +8,11 @@ a=(); b=(); cur=a
 for x in "$@"; do if [ "$x" = "--" ]; then cur=b; continue; fi; if [ $cur = a ]; then a+=("$x"); else b+=("$x"); fi; done
 [ ${#b[@]} -eq 0 ] && b=("${a[@]}")
 mkdir -p /tmp/wt/conf
-for m in m3 m4; do
+for m in ${ROUND_MS:-m3 m4}; do
   [ -d /tmp/wt/$p/seeded/$m ] || { echo "no $m"; continue; }
   flock /tmp/wt/test.lock /verif/tools/confirm_seed.sh /tmp/wt/$p /tmp/wt/$p/seeded/$m ${p}_$m > /tmp/wt/conf/$p-$m.txt 2>&1
   cat /tmp/wt/conf/$p-$m.txt
-  if [ $m = m3 ]; then /verif/tools/adopt2.sh /tmp/wt/$p $m $P /tmp/wt/conf/$p-$m.txt "${a[@]}" 2>&1 | tail -2
+  if [ $m = m3 ] || [ $m = m5 ]; then /verif/tools/adopt2.sh /tmp/wt/$p $m $P /tmp/wt/conf/$p-$m.txt "${a[@]}" 2>&1 | tail -2
   else /verif/tools/adopt2.sh /tmp/wt/$p $m $P /tmp/wt/conf/$p-$m.txt "${b[@]}" 2>&1 | tail -2; fi
 done
 git -C /repo status --short | head -3
